@@ -1,10 +1,11 @@
 SPECIFICATION Spec
 CONSTANTS
-  Accts <- AllAccts
-  Chains <- AllChains
+  Accts <- SomeAccts
+  Chains <- TwoChains
   Methods <- SomeMethods
   Paths <- SomePaths
   Counter <- CounterTuple
+  Vers = {1, 2}
   MaxSeq = 1
   MaxUpd = 1
 INVARIANTS AckRelayerField
